@@ -282,6 +282,10 @@ def c08_molecules(tier):
     out.append(("codes", Mol([Atom("N", 1), Atom("O", -1), Atom("C", 0, 2), Atom("C")], [(0, 1, 1), (0, 2, 1), (2, 3, 2)])))
     out.append(("codes", Mol([Atom("Fe", 3), Atom("Cl", -1), Atom("Cl", -1), Atom("Cl", -1)], [])))
     out.append(("codes", Mol([Atom("C", 0, 2, 13), Atom("H", 0, 0, 2), Atom("H", 0, 0, 3), Atom("H")], [(0, 1, 1), (0, 2, 1), (0, 3, 1)])))
+    # a charged deuteron next to other charged atoms (codes + D/T symbols on the same atom line)
+    out.append(("codes", Mol([Atom("N", 1), Atom("H", 1, 0, 2), Atom("Cl", -1), Atom("O", -1), Atom("H", 1, 0, 3)], [(0, 3, 1)])))
+    # coordinates that fill the whole 10-character field
+    out.append(("codes", Mol([Atom("C", 1, 0, 0, (-1234.5678, 12345.6789, -9999.9999)), Atom("O", -1, 0, 0, (99999.9999, 0.0, -1000.0))], [(0, 1, 2)])))
     # hydrogen isotopes: D-O-H, D-O-T, with other isotopes around (D5)
     out.append(("iso", Mol([Atom("H", 0, 0, 2), Atom("O", 0, 0, 18), Atom("H")], [(0, 1, 1), (1, 2, 1)])))
     out.append(("iso", Mol([Atom("H", 0, 0, 2), Atom("O"), Atom("H", 0, 0, 3)], [(0, 1, 1), (1, 2, 1)])))
@@ -352,6 +356,7 @@ def v2_deviations(name, M, tier):
     yield ("eol=CRLF", {"eol": "\r\n"})
     yield ("no-final-newline", {"final_newline": False})
     yield ("header", {"header": ("name", "  prog", "M  CHG  1   1   5")})
+    yield ("header:mentions-V3000", {"header": ("converted from a V3000 file", "  prog", "V3000 V2000 M  V30 BEGIN CTAB")})
 
 
 def _v2_apply(sp, kw):
